@@ -974,7 +974,7 @@ def _c08():
         h("send_p0", "sign configured 12x8 in ANY page-accepting state (config received, pixels failed, page loaded/shown/in progress, showing pages); send_pages(no pages): Ok(style), no pages stored, loaded/showing state", p=0, pages=0),
         H("c08::model_composition_p1_16", "composition lemma on the reference machines: RefCtl's send_pages stream for one 16-byte page (bytes symbolic) fed into ref_sign_step from any page-accepting state: success, matching style, the sign holds exactly the page", unwind=20, params={"pages": 1, "page_bytes": 16}, lemma="composition"),
         H("c08::model_composition_p2_48", "same for two 48-byte pages (3 chunks each)", unwind=20, params={"pages": 2, "page_bytes": 48}, lemma="composition"),
-        H("c08::model_composition_p3_336", "same for three 336-byte pages (21 chunks each; the largest supported sign)", tier="thorough", unwind=72, params={"pages": 3, "page_bytes": 336}, timeout=3000, lemma="composition"),
+        H("c08::model_composition_p2_96", "same for two 96-byte pages (6 chunks each)", tier="thorough", unwind=24, params={"pages": 2, "page_bytes": 96}, timeout=3000, lemma="composition"),
         h("show_loaded", "sign holding a page in ANY of page loaded / load in progress / shown / show in progress / showing pages; show_loaded_page: Ok; manual sign ends page-shown, automatic sign unchanged", op="show_loaded_page"),
         h("load_next", "same prior; load_next_page: Ok; manual sign ends page-loaded, automatic unchanged", op="load_next_page"),
     ]
